@@ -14,8 +14,8 @@
 package c09
 
 import (
-	"encoding/binary"
 	"bytes"
+	"encoding/binary"
 	"encoding/hex"
 	"fmt"
 	"sort"
